@@ -266,6 +266,8 @@ func init() {
 			// a Close (or a Write) that is the first operation to meet a connection fault: parked readers return
 			{Scenario: "mux.faultsend", Params: vx.P("conns", "2"), Bound: b(1, 2), Weight: 5},
 			{Scenario: "mux.readfromclose", Params: vx.P("conns", "1"), Bound: b(2, 4), Weight: 3},
+			// a local close of a stream holding 20 MiB unread returns (and its closing frame goes out)
+			{Scenario: "mux.backlog", Params: vx.P("mb", "20", "close", "1"), Bound: b(0, 1), Weight: 4},
 			{Scenario: "mux.readfromclose", Params: vx.P("conns", "2"), Bound: b(2, 3), Weight: 3},
 			{Scenario: "mux.stalledwriter", Params: vx.P("via", "write"), Bound: b(2, 3), Weight: 2},
 			{Scenario: "mux.stalledwriter", Params: vx.P("via", "readfrom"), Bound: b(2, 3), Weight: 2},
